@@ -138,6 +138,15 @@ P["C16"]=dict(level="model_checking",
  quick=dict(harnesses=[], l2=["verifL_Race_ShardedMap:l2","verifL_Race_SyncMap:l2","verifL_Race_ShardedMapOf:l2"], l2_jobs=3, l2_par=16, l2_timeout=120),
  thorough=dict(harnesses=[], l2=["verifL_Race_ShardedMap_all:l2","verifL_Race_SyncMap_all:l2","verifL_Race_ShardedMapOf_all:l2"], l2_jobs=3, l2_par=16, l2_timeout=300))
 
+P["C08"]=dict(level="model_checking",
+ explanation="Linearizability is decided per configuration by the solver over all schedules: two threads run real backend operations (Read, Write, Delete, ExpireAll, DeleteAll; thorough: thread A runs two of Read/Write/Delete in program order against one operation of thread B) on one key of a shared ShardedMap, SyncMap or ShardedMapOf[int]; each thread is explored in event mode from the go/ssa of the real methods (shard RWMutex Lock/RLock regions, Go map and sync.Map accesses, entry fields are events), the automata are composed with a symbolic scheduler, and at quiescence the oracle asserts that the tuple (result of every operation, final presence, final value, final dated/undated expiry) equals that of SOME sequential order of the operations on a 3-field reference register that respects program order. Because both operations overlap in every explored schedule, real-time precedence only constrains program order inside a thread, which the oracle respects. The Walk harness runs Walk against Read/Write/Delete of another key in the same or another shard: the untouched entry is visited exactly once, the other key at most once and only with a value that was stored, the returned count equals the number of callbacks.",
+ bounds="2 threads; 2 operations (quick) or 2+1 operations (thorough) on one key; Walk harness: 2 keys (same shard / different shards), one concurrent point operation; clock frozen; one pre-stored entry or none; UnlimitedTTL config, no jitter",
+ outside="more than 2 goroutines or 3 operations; LRU/LFU counter bookkeeping and eviction/cleanup cycles as concurrent batch operations (cleanup is raced in C16 only); hash-colliding keys (same 64-bit hash); Walk against ExpireAll/DeleteAll",
+ assumptions=["sync.Map operations (Load, Store, LoadAndDelete, LoadOrStore, Delete, Range step) are atomic per call; Range visits the keys present when each step executes","blocks are formed by Lipton reduction over the lockset facts recomputed on every run","sequential consistency (race freedom of these accesses is the subject of C16)"],
+ technique="event automata from go/ssa + bounded model checking of the composition with a symbolic scheduler (partial-order SMT encoding); linearizability oracle = disjunction over sequential orders of a reference register evaluated by the solver",
+ quick=dict(harnesses=[], l2=["verifL_Lin2_ShardedMap:l2","verifL_Lin2_SyncMap:l2","verifL_Lin2_ShardedMapOf:l2","verifL_LinWalk_ShardedMap:l2","verifL_LinWalk_SyncMap:l2","verifL_LinWalk_ShardedMapOf:l2"], l2_jobs=3, l2_par=16, l2_timeout=120),
+ thorough=dict(harnesses=[], l2=["verifL_Lin2_ShardedMap:l2","verifL_Lin2_SyncMap:l2","verifL_Lin2_ShardedMapOf:l2","verifL_LinWalk_ShardedMap:l2","verifL_LinWalk_SyncMap:l2","verifL_LinWalk_ShardedMapOf:l2","verifL_Lin3_ShardedMap:l2","verifL_Lin3_SyncMap:l2","verifL_Lin3_ShardedMapOf:l2"], l2_jobs=3, l2_par=16, l2_timeout=300))
+
 json.dump({"common_assumptions":common,"properties":P},open('/verif/checks.json','w'),indent=1)
 print("checks.json:",sorted(P))
 
